@@ -24,6 +24,8 @@ def check(tier, seed):
         ck.obligation("differential access-control run", False, err)
         ck.violation({"kind": "harness", "log": err, "broken": "walker harness"}, "harness failed: " + err[:300], no_input=True)
         return ck.finish()
+    from .c15 import aclsize_obligation
+    aclsize_obligation(ck, "namespace", "namespace")
     mine = [d for d in diffs if d.split()[0] in ("ACL", "ACLI")]
     ck.obligation("real isNamespaceAccessAllowed / Intercept = descriptor-driven reference on %d (request, allow-list) cases over all request types" % stats.get("acl_cases", 0),
                   not mine, "%d differ; first %s" % (len(mine), mine[0][:300] if mine else ""))
@@ -109,6 +111,9 @@ def check(tier, seed):
 
 
 def replay(data):
+    if data.get("kind") == "aclsize":
+        from .c15 import replay_aclsize
+        return replay_aclsize(data)
     if data.get("kind") == "walker":
         err, diffs, stats = W.run(data["mode"], data["seed"], data["cases"], only=data["only"])
         print(err or "\n".join(diffs) or "(no disagreement)")
